@@ -123,6 +123,83 @@ def isar_element_total(kind_sel, p0, p1, p2, p3, p4, p5, p6, p7):
     return True
 
 
+def _generate_all(nodes):
+    """what the three back-ends do with the evaluated model, without writing files"""
+    from prophyc.generators.python import PythonGenerator
+    from prophyc.generators.cpp import CppGenerator
+    from prophyc.generators.cpp_full import CppFullGenerator
+    from prophyc.generators.base import GenerateError
+    for G in (PythonGenerator, CppGenerator, CppFullGenerator):
+        g = G('out')
+        try:
+            g.check_nodes(nodes)
+        except GenerateError:
+            continue                                   # designed refusal of this back-end ("byte size unknown", ...)
+        for ext in sorted(g.top_level_translators):
+            g.top_level_translators[ext]()(nodes, 'base')
+
+
+TYPE_VALUES = ['u16', 'S', 'E', 'N', 'Nope', '']              # builtin, struct, enum, a constant's name, undefined, empty
+NAME_VALUES = ['a', '', 'N', 'S']                            # plain, empty, clashing with a constant / a struct
+SIZER_VALUES = ['cnt', '@pre', '@nope', '', '@']             # new counter name, existing field, dangling reference, empty, bare @
+SIZE_VALUES = ['2', 'N', 'E_A', 'Nope', 'S', 'THIS_IS_VARIABLE_SIZE_ARRAY', '0', '-1']
+PRIM_VALUES = ['8 bit integer unsigned', 'u8', 'nonsense', '']
+
+
+def isar_values_total(kind_sel, v0, v1, v2, v3, flag):
+    """all attributes present, their *values* chosen from pools of valid, empty, dangling and wrong-kind references
+    (kind_sel: 0 struct member with a dimension, 1 message member, 2 typedef, 3 union member); the element lives next to
+    a constant N, an enum E and a struct S; builders, evaluate_model and all three back-ends must stay in the designed channel"""
+    from prophyc import model
+    from prophyc.parsers import isar
+    ctx = [model.Constant('N', '3'), model.Enum('E', [model.EnumMember('E_A', '1'), model.EnumMember('E_B', '2')]),
+           model.Struct('S', [model.StructMember('x', 'u8')]), model.Struct('A', [model.StructMember('v', 'u8', size='N')])]
+    if kind_sel == 2:
+        e = ET.Element('typedef')
+        e.set('name', _pick(['T', 'N', ''], v0))
+        if flag:
+            e.set('type', _pick(TYPE_VALUES, v1))
+        else:
+            e.set('primitiveType', _pick(PRIM_VALUES, v2))
+        make = isar.make_typedef
+    elif kind_sel == 3:
+        e = ET.Element('union')
+        e.set('name', 'U')
+        m = ET.SubElement(e, 'member')
+        m.set('name', _pick(NAME_VALUES, v0))
+        m.set('type', _pick(TYPE_VALUES, v1))
+        m.set('discriminatorValue', _pick(['1', 'E_A', 'N', 'Nope', 'S', '', '-1'], v2))
+        make = isar.make_union
+    else:
+        e = ET.Element('message' if kind_sel == 1 else 'struct')
+        e.set('name', 'X')
+        p = ET.SubElement(e, 'member')
+        p.set('name', 'pre')
+        p.set('type', 'u8')
+        m = ET.SubElement(e, 'member')
+        m.set('name', _pick(NAME_VALUES, v0))
+        m.set('type', _pick(TYPE_VALUES, v1))
+        d = ET.SubElement(m, 'dimension')
+        d.set('size', _pick(SIZE_VALUES, v2))
+        if flag:
+            d.set('isVariableSize', 'true')
+        d.set('variableSizeFieldName', _pick(SIZER_VALUES, v3))
+        if kind_sel == 1:
+            make = lambda x: isar.make_struct(x, last_member_array_is_dynamic=True)      # noqa: E731
+        else:
+            make = isar.make_struct
+
+    def run():
+        node = make(e)
+        if node is None:
+            return True
+        nodes, _ = model.evaluate_model(ctx + [node])
+        _generate_all(nodes)
+        return True
+    _guard(run)
+    return True
+
+
 ACTIONS = ['type', 'insert', 'remove', 'dynamic', 'greedy', 'static', 'limited', 'rename', 'bogus']
 PARAMS = [[], ['a'], ['a', 'u64'], ['1', 'ins', 'u32'], ['zz', 'ins', 'u32'], ['x', 'n'], ['x', 'nosuch'], ['x', '3'], ['x', '-1'], ['nosuch', 'u8'],
           ['a', 'b', 'c', 'd'], ['o'], ['99', 'ins', 'u32'], ['-1', 'ins', 'u32']]
